@@ -267,7 +267,7 @@ def conc_filter(tier):
     return S.file_filter({
         'deep/processor/context/action_context.py': None,
         'deep/processor/context/snapshot_action.py': {'_process_action': 'line', 'process': 'line'},
-        'deep/api/tracepoint/trigger.py': {'can_trigger': 'line', 'record_triggered': 'line', '__get_int': 'line',
+        'deep/api/tracepoint/trigger.py': {'can_trigger': 'line', 'record_triggered': 'line', 'try_fire': 'line', '__get_int': 'line',
                                            'fire_count': 'line', 'fire_period': 'line'},
         'deep/api/tracepoint/tracepoint_config.py': {'fire': fire, 'fire_count': 'line', 'last_fire': 'line', 'in_window': 'line'},
         'deep/processor/trigger_handler.py': {'trace_call': 'line'},
@@ -347,7 +347,8 @@ def case_conc(ctx, desc):
 
     saved = (TC.time_ns, FCm.time_ns, ES.time_ns)
     try:
-        with shims.patched((TL, 'threading', shims.ThreadingShim())):
+        import deep.api.tracepoint.trigger as TRm
+        with shims.patched((TL, 'threading', shims.ThreadingShim()), (TRm, 'threading', shims.ThreadingShim())):
             if 'schedule' in desc:
                 sched, st = S.run_one(make2, desc['schedule'])
                 ctx.traces += 1
